@@ -92,7 +92,8 @@ def validate_mnemonic(mnemonic: str, language: str = DEFAULT_LANGUAGE) -> None:
             'but it is not (%d).' % len(mnemonic_words)
         )
 
-    idx = map(lambda x: bin(m.wordlist.index(x))[2:].zfill(11), mnemonic_words)
+    wordlist = [m.normalize_string(w) for w in m.wordlist]
+    idx = map(lambda x: bin(wordlist.index(x))[2:].zfill(11), mnemonic_words)
     b = ''.join(idx)
     l = len(b)
     d = b[: l // 33 * 32]
